@@ -120,4 +120,73 @@ theorem eof_once_after_data (u : User) (ops : List Op) (pre mid post : List Ev) 
   exact quiet_after_eof_error_stop u ops pre mid post _ _ hs
     (Or.inl ⟨_, _, _, rfl, by decide, by decide⟩) (Or.inr ⟨_, _, _, rfl⟩)
 
+/-- At most 32 alloc_cb/read_cb rounds per loop iteration (`nAlloc` counts alloc_cb calls), whatever
+    the buffer sizes, however much data is pending, whatever the callbacks do. -/
+theorem iteration_bound (u : User) (s : St) (ev : PollEv) (reads : List Outcome) :
+    (stepOp u s (.poll ev reads)).nAlloc ≤ s.nAlloc + 32 :=
+  poll_nAlloc u s ev reads
+
+/-- Hang-up with data still buffered.  uv__stream_io reports the synthetic UV_EOF only when uv__read
+    left READ_PARTIAL set.  If the kernel hands over min(buffer, available) bytes on every successful
+    read (`NoShort`: scripted `ok k` outcomes have k ≥ every buffer size; EAGAIN/EINTR/errors are
+    unrestricted), READ_PARTIAL after uv__read implies that the kernel buffer is empty - so, with
+    `delivered_is_prefix_in_order`, everything the peer wrote was delivered before the synthetic EOF -
+    and the stream is not an IPC pipe (those never take this path). -/
+theorem hup_with_data_not_lost_partial (u : User) (K : Nat) (hA : ∀ i, u.allocS i ≤ K) (s : St)
+    (hO : NoShort K s.oracle) (h : (uvRead u s).readPartial = true) :
+    (uvRead u s).kbuf = [] ∧ s.ipc = false :=
+  partial_implies_drained u K hA s hO h
+
+/-- Trace-level form (not proved: lifting the step-level fact above through `exec` needs the coupling
+    invariant extended by the `NoShort` hypothesis on every `poll` op; for IPC pipes the hypothesis
+    should not be needed at all). -/
+def hup_with_data_not_lost_full : Prop :=
+  ∀ (u : User) (ops : List Op) (K : Nat), (∀ i, u.allocS i ≤ K) →
+    (∀ ev reads, Op.poll ev reads ∈ ops → NoShort K reads) →
+    ∀ pre post b, (exec u init ops).trace = pre ++ .readCb UV_EOF none b :: post → delivered pre = sent pre
+
+/-- Without the kernel assumption the statement is false of the code: a short read that leaves data
+    behind (here 2 of 3 bytes into a 10-byte buffer) followed by POLLHUP makes uv__stream_io report
+    UV_EOF while a byte is still unread.  Linux produces such reads at the boundary of
+    descriptor-carrying messages; that was the IPC data-loss defect (fixed: IPC pipes no longer set
+    READ_PARTIAL), replayed on the real library by corpus/C06/ipc-fd-msg-then-data-then-close.txt. -/
+def uLoss : User := { allocS := fun _ => 10, cbS := fun _ => [] }
+def opsLoss : List Op := [.start, .peerW [1, 2, 3], .peerShut, .poll { inn := true, hup := true } [.ok 2]]
+
+theorem short_read_then_hup_loses_data :
+    ∃ pre b, (exec uLoss init opsLoss).trace = pre ++ [.readCb UV_EOF none b] ∧ delivered pre ≠ sent pre :=
+  ⟨[.ret .start 0, .peerW [1, 2, 3], .peerShut, .alloc 0 10, .readCb 2 (some 0) [1, 2]], [], by decide, by decide⟩
+
+/-! Non-vacuity: a concrete run that contains every kind of event the theorems speak about (data,
+    refusal → UV_ENOBUFS, EINTR retry, EAGAIN → read_cb(0) with stop+start inside the callback, a short
+    read, the synthetic EOF on POLLHUP, uv_read_stop), so each hypothesis `trace = pre ++ e :: post`
+    above is satisfiable. -/
+def uEx : User := { allocS := fun k => if k = 1 then 0 else 2, cbS := fun k => if k = 2 then [.stop, .start] else [] }
+def opsEx : List Op := [.start, .peerW [7, 8, 9], .poll { inn := true } [.eintr, .ok 2], .peerShut,
+  .poll { inn := true } [.eagain], .poll { inn := true, hup := true } [.ok 1, .ok 0], .stop, .poll { hup := true } []]
+
+example : (exec uEx init opsEx).trace =
+    [.ret .start 0, .peerW [7, 8, 9], .alloc 0 2, .readCb 2 (some 0) [7, 8], .alloc 1 0, .readCb (-105) (some 1) [],
+     .peerShut, .alloc 2 2, .readCb 0 (some 2) [], .ret .stop 0, .ret .start 0, .alloc 3 2, .readCb 1 (some 3) [9],
+     .readCb (-4095) none [], .ret .stop 0] := by decide
+
+/-- a read-0 EOF after all data, then restart and a second EOF (instance of `eof_once_after_data`, `delivered_all_at_eof`) -/
+example : (exec { allocS := fun _ => 4, cbS := fun k => if k = 1 then [.start] else [] } init
+      [.start, .peerW [5, 6], .peerShut, .poll { inn := true } [], .poll { inn := true } [], .poll { inn := true } []]).trace =
+    [.ret .start 0, .peerW [5, 6], .peerShut, .alloc 0 4, .readCb 2 (some 0) [5, 6], .alloc 1 4, .readCb (-4095) (some 1) [],
+     .ret .start 0, .alloc 2 4, .readCb (-4095) (some 2) []] := by decide
+
+/-- hypotheses of `hup_with_data_not_lost_partial` are satisfiable with READ_PARTIAL set -/
+example : NoShort 4 [Outcome.eintr, .ok 9] ∧
+    (uvRead { allocS := fun _ => 4, cbS := fun _ => [] }
+      { reading := true, hasCb := true, pollin := true, kbuf := [1, 2], oracle := [.eintr, .ok 9] }).readPartial = true := by
+  constructor
+  · intro o ho k hk; subst hk; simp at ho; omega
+  · decide
+
+/-- 32 rounds are reached: 40 pending bytes, 1-byte buffers -/
+example : (stepOp { allocS := fun _ => 1, cbS := fun _ => [] }
+      { reading := true, hasCb := true, pollin := true, kbuf := List.replicate 40 0 } (.poll { inn := true } [])).nAlloc = 32 := by
+  decide
+
 end UvModel.Props.C06
